@@ -11,4 +11,12 @@ CHECKS = {
          "frame content (update count), per-step column and Solution.times/dynamics entry is compared with RM-recorder; a second family runs the real adaptive update "
          "against a by-hand re-execution. The loop's only state is (stage, step mod k, buffer cursor), all of whose values are reached within the bound."),
    note="trusts h5py for reading frames back; scripted family replaces TDGLSolver.update only; time steps are powers of two (exact sums); run lengths beyond the bound rest on the small-state argument"),
+ "C10": dict(
+   engine="mc-core", category="model_checking", design_ref="DESIGN.md 3/C10",
+   technique="explicit-state BFS to fixpoint over set_link_exponents histories (state = all mutable operator fields) + exhaustive scripted A(t) sequences through the real update",
+   text=("Per (mesh, pinned-site set) the history space of MeshOperators.set_link_exponents over a 7-letter alphabet of potentials (zero, repeats as new objects, 5e-6 relative increments, "
+         "wrapping phases, seeded per-edge) is explored breadth-first to a fixpoint with every mutable field in the state hash, and all histories up to depth 3/4 are run again without de-duplication; "
+         "after every event both covariant operators are compared entrywise with a fresh rebuild for the latest potential. At solver level every script of per-step field increments of length 5/6 "
+         "(and 3/4 with screening) is driven through the real TDGLSolver.update and the Laplacian actually handed to solve_for_psi_squared is compared with a rebuild."),
+   note="differential oracle: the rebuild uses the library's own first-call builder (absolute correctness of the builders is C03/C04); potentials outside the alphabet rest on the affine dependence of each entry on one link variable"),
 }
